@@ -70,7 +70,7 @@ def items(tier):
     # worker skill x facility skill grid on one facility task with 1-2 pairs
     for ws in (0.5, 1.0, 2.0):
         for fs in (0.5, 1.0, 2.0):
-            for two in (False, True):
+            for two in (False, True, "perm"):
                 sp = {
                     "tasks": [{"name": "T0", "work": 3.0, "nf": True}],
                     "links": [],
@@ -78,6 +78,10 @@ def items(tier):
                     "workplaces": [{"name": "WP0", "cap": 1.0, "targets": [0], "facilities": [{"name": "F0", "skills": {"T0": fs}}] + ([{"name": "F1", "skills": {"T0": 1.0}}] if two else [])}],
                     "teams": [{"name": "TM0", "targets": [0], "workers": [{"name": "W0", "skills": {"T0": ws}, "fskills": {"F0": 1.0, "F1": 1.0}}] + ([{"name": "W1", "skills": {"T0": 1.5}, "fskills": {"F0": 1.0, "F1": 1.0}}] if two else [])}],
                 }
+                if two == "perm":
+                    # the worker's entry for the machine is a permission (any positive value), not a factor of the contribution
+                    sp["teams"][0]["workers"][0]["fskills"] = {"F0": 2.0, "F1": 0.5}
+                    sp["teams"][0]["workers"][1]["fskills"] = {"F0": 0.5, "F1": 2.0}
                 out.append((sp, {"rule": "TSLACK", "max_time": 30}))
     return out
 
